@@ -67,9 +67,12 @@ FRAGS = [
          doc='`pruning.min_sum(sum)`'),
     # ------------------------------------------------------------------ dendrogram.py: compute
     Frag('keep_pixel', 'astrodendro/dendrogram.py', 'Dendrogram.compute',
-         {'self.data': ('data', 'Int'), 'threshold': ('threshold', 'Int')},
-         select=_only(lambda t: t.startswith('keep = ')), outputs=['keep'], props=['C01', 'C03', 'C16'],
-         doc='which pixels are processed (element-wise; NaN compares false and is absent from the model)'),
+         {'self.data': ('data', 'Int'), 'min_value': ('min_value', 'Int'), 'isinstance(min_value, float)': ('isFloat', 'Bool'),
+          'np.float64(min_value)': ('min_value', 'Int')},      # widening a Python float to float64 keeps the number
+         select=_from_until(lambda t: t.startswith('threshold = '), lambda t: t.startswith('keep = '), inclusive=True),
+         outputs=['keep'], props=['C01', 'C03', 'C16'],
+         doc='which pixels are processed, from the threshold handed in to the comparison (element-wise; NaN compares false '
+             'and is absent from the model)'),
     Frag('default_min_int', 'astrodendro/dendrogram.py', 'Dendrogram.compute',
          {"min_value == 'min'": ('isMin', 'Bool'), 'min_value': ('min_value', 'Int'),
           'np.min(data[np.isfinite(data)])': ('dataMin', 'Int'), 'finite_min': ('dataMin', 'Int'),
